@@ -338,7 +338,10 @@ def timeStep (optSec : Bool) (q : DateSt) (c : Nat) : Option DateSt :=
   else if q.pos = 13 then (if c = 58 then some { q with pos := 14 } else none)
   else if q.pos = 14 then one
   else if q.pos = 15 then two 59
-  else if q.pos = 16 then (if c = 58 then some { q with pos := 17 } else if optSec then zone else none)
+  else if q.pos = 16 then
+    (if c = 58 then some { q with pos := 17 }
+     else if optSec then zone.map (fun q' => { q' with y := 1 })   -- y = 1 from here on: the seconds were omitted
+     else none)
   else if q.pos = 17 then one
   else if q.pos = 18 then two 59
   else if q.pos = 19 then (if c = 46 then some { q with pos := 20 } else zone)
@@ -367,6 +370,26 @@ def isoDateTime (optSec : Bool) : Spec where
   pp := DateSt.pp
 
 def isoDateTimeQ (optSec : Bool) : Spec := { isoDateTime optSec with step := dateTimeStep 400 optSec }
+
+/-! ### excluded regions of the `_partial` theorems (Proofs/C20.lean) -/
+
+/-- strings the exported Base64URL pattern takes although they break the RFC 4648 length rule:
+    alphabet symbols, then at most two '=', with a length that no encoder produces -/
+def base64urlBadLen : Spec where
+  State := B64St
+  beq := B64St.beq
+  beq_eq := B64St.beq_eq
+  init := ⟨0, 0⟩
+  support := base64url.support
+  step := fun q c =>
+    if c = 61 then (if q.p < 2 then some ⟨q.n, q.p + 1⟩ else none)
+    else if q.p = 0 then some ⟨(q.n + 1) % 4, 0⟩ else none
+  acc := fun q => if q.p = 0 then q.n = 1 else (q.n + q.p) % 4 ≠ 0
+  code := fun q => q.n * 4 + q.p
+  pp := B64St.pp
+
+/-- date-times written without the seconds field (`hh:mm` then the zone) -/
+def isoDateTimeNoSecQ : Spec := { isoDateTimeQ true with acc := fun q => q.pos = 27 && q.y = 1 }
 
 end Fmt
 end Gozod
